@@ -3,7 +3,7 @@
    elements are the sums of the values given for each position; GCXS -> scipy -> GCXS and
    COO -> scipy -> COO are the identity. *)
 From Coq Require Import ZArith List Bool Lia Sorting.Sorted Sorting.Permutation.
-From Verif Require Import Py Shape COO GCXS COOP S_convert S_scipy Convert ScipyConv ConvertL ConvertM ConvertG ConvertP ConvertU.
+From Verif Require Import Py Shape COO GCXS COOP S_convert S_scipyconv Convert ScipyConv ConvertL ConvertM ConvertG ConvertP ConvertU.
 Import ListNotations.
 Open Scope Z_scope.
 
@@ -89,7 +89,7 @@ Section ScipyProofs.
     apply Nat.eqb_eq in H1. destruct (sc_shape m) as [|d0 [|d1 [|d2 t]]] eqn:E; simpl in H1; try discriminate.
     exists d0, d1. apply shape_okb_spec in H2. inversion H2 as [|? ? A0 H2']; subst. inversion H2' as [|? ? A1 _]; subst.
     repeat split; auto.
-    - unfold sc_axis, S_scipy.s_from_scipy_axis. destruct (sc_csc m); auto.
+    - unfold sc_axis, S_scipyconv.s_from_scipy_axis. destruct (sc_csc m); auto.
     - apply Nat.eqb_eq. exact H3.
     - apply Z.eqb_eq. exact H4.
     - apply Z.eqb_eq. exact H5.
@@ -100,7 +100,7 @@ Section ScipyProofs.
   Qed.
 
   Lemma axis_csc (m : scs V) : (sc_axis m = 0 /\ sc_csc m = false) \/ (sc_axis m = 1 /\ sc_csc m = true).
-  Proof. unfold sc_axis, S_scipy.s_from_scipy_axis. destruct (sc_csc m); auto. Qed.
+  Proof. unfold sc_axis, S_scipyconv.s_from_scipy_axis. destruct (sc_csc m); auto. Qed.
 
   Lemma sizes_2d d0 d1 :
     row_size [d0; d1] [0] = d0 /\ col_size [d0; d1] [0] = d1 /\ row_size [d0; d1] [1] = d1 /\ col_size [d0; d1] [1] = d0.
@@ -204,7 +204,7 @@ Section ScipyProofs.
     intros Hs. cbv zeta. unfold gcxs_from_scipy, canonical_scipy.
     destruct (sc_coords_facts m Hs) as [Hr Hlen].
     destruct (struct_elim m Hs) as [d0 [d1 [Esh [A0 [A1 [Hax _]]]]]].
-    destruct (S_scipy.s_canonical_scipy_recanon (sc_canonicalb m)) eqn:Erec.
+    destruct (S_scipyconv.s_canonical_scipy_recanon (sc_canonicalb m)) eqn:Erec.
     - (* re-canonicalised: the compressed form of the summed COO *)
       destruct (coo_make_den_proof V veqb add (sc_shape m) (sc_coords m) (sc_data m) zero Hr (eq_sym Hlen))
         as [Hc [Hsh [Hf Hden]]].
@@ -224,11 +224,18 @@ Section ScipyProofs.
       apply Hden. exact Hix.
     - (* already canonical: the arrays as they are *)
       assert (Hcan : sc_canonicalb m = true).
-      { unfold S_scipy.s_canonical_scipy_recanon in Erec. destruct (sc_canonicalb m); [reflexivity|discriminate]. }
+      { unfold S_scipyconv.s_canonical_scipy_recanon in Erec. destruct (sc_canonicalb m); [reflexivity|discriminate]. }
       destruct (canonical_coords m Hs Hcan) as [Hco Hnd].
       split; [apply canonical_wf; assumption|]. split; [reflexivity|]. split; [reflexivity|]. split; [reflexivity|].
       intros ix _. unfold gden, gcxs_as_coo. rewrite Hco. cbn [sc_as_gcxs g_shape g_data g_fill].
       apply den_nodup_meaning; assumption.
+  Qed.
+
+  (* ---- the scipy operand is never modified (the in-place canonicalisation runs on a copy) *)
+  Theorem scipy_operand_unchanged_proof (m : scs V) : scipy_operand_after veqb add zero m = m.
+  Proof.
+    unfold scipy_operand_after, S_scipyconv.s_canonical_scipy_copies_first. cbn [negb].
+    rewrite andb_false_r. reflexivity.
   Qed.
 
   (* ---- GCXS -> scipy -> GCXS *)
@@ -243,9 +250,9 @@ Section ScipyProofs.
     unfold gcxs_to_scipy. cbn [g_fill g_shape g_caxes g_data g_indices g_indptr].
     replace (veqb zero zero) with true by (symmetry; apply veqb_eq; reflexivity). cbn [negb].
     eexists. split; [reflexivity|].
-    set (m := mkSCS (negb (S_scipy.s_to_scipy_is_csr (mem_z 0 [a]))) [d0; d1] data indices indptr).
+    set (m := mkSCS (negb (S_scipyconv.s_to_scipy_is_csr (mem_z 0 [a]))) [d0; d1] data indices indptr).
     assert (Hax : sc_axis m = a).
-    { unfold sc_axis, m, S_scipy.s_from_scipy_axis, S_scipy.s_to_scipy_is_csr. cbn [sc_csc]. destruct Ha as [-> | ->]; reflexivity. }
+    { unfold sc_axis, m, S_scipyconv.s_from_scipy_axis, S_scipyconv.s_to_scipy_is_csr. cbn [sc_csc]. destruct Ha as [-> | ->]; reflexivity. }
     assert (Hstruct : sc_structb m = true).
     { unfold sc_structb. rewrite Hax. unfold m. cbn [sc_shape sc_data sc_indices sc_indptr].
       rewrite !andb_true_iff. repeat split.
@@ -260,7 +267,7 @@ Section ScipyProofs.
     split; [exact Hstruct|].
     unfold gcxs_from_scipy, canonical_scipy.
     assert (Hcan : sc_canonicalb m = true) by exact Hrows.
-    rewrite Hcan. unfold S_scipy.s_canonical_scipy_recanon. cbn [negb].
+    rewrite Hcan. unfold S_scipyconv.s_canonical_scipy_recanon. cbn [negb].
     unfold sc_as_gcxs. rewrite Hax. reflexivity.
   Qed.
 
@@ -273,7 +280,7 @@ Section ScipyProofs.
     intros Hc Hsh Hf. unfold coo_to_scipy. rewrite Hf, Hsh.
     replace (veqb zero zero) with true by (symmetry; apply veqb_eq; reflexivity). cbn [negb].
     do 4 eexists. split; [reflexivity|].
-    unfold coo_from_scipy, S_scipy.s_coo_to_scipy_flag, S_scipy.s_coo_from_scipy_sorted, S_scipy.s_coo_from_scipy_hasdup. cbn [negb].
+    unfold coo_from_scipy, S_scipyconv.s_coo_to_scipy_flag, S_scipyconv.s_coo_from_scipy_sorted, S_scipyconv.s_coo_from_scipy_hasdup. cbn [negb].
     rewrite <- Hsh, <- Hf. apply coo_make_canonical_id. exact Hc.
   Qed.
 
@@ -285,7 +292,7 @@ Section ScipyProofs.
     forall ix, in_range sh ix ->
       den r ix = match sum_list V add (dup_vals V (combine coords data) ix) with Some s => s | None => zero end.
   Proof.
-    intros Hr Hl. unfold coo_from_scipy, S_scipy.s_coo_from_scipy_sorted, S_scipy.s_coo_from_scipy_hasdup. cbn [negb].
+    intros Hr Hl. unfold coo_from_scipy, S_scipyconv.s_coo_from_scipy_sorted, S_scipyconv.s_coo_from_scipy_hasdup. cbn [negb].
     apply coo_make_den_proof; assumption.
   Qed.
 End ScipyProofs.
